@@ -9,30 +9,36 @@ ID = 'C14'
 ZERO_LABELS = True      # a share of the cases is asked with candidates numbered from 0 (harness/common.py LABEL_MODE)
 LEVEL = 'proof'
 B = BLOCK['C14']
-TIE = {'core.PreConverted / PostConverted / FixedSeatCount / Conditioned / ByConstituency / PreApportioned / RemovedApportionment / '
-       'ByParty / MultistageDistributor / TieBreaking / PartyListEvaluator (evaluate methods)': 'correspondence (extracted run_impl with the '
-       'leaf evaluators and converters answered by the real objects through an oracle table)',
+TIE = {'core.PreConverted / PostConverted / FixedSeatCount / Conditioned / ByConstituency (incl. preselector) / PreApportioned / RemovedApportionment / '
+       'ByParty / MultistageDistributor / UnusedVotesDistributor / AdjustedSeatCount / AllowOverhang / LevelOverhang / LevelOverhangByConstituency / TieBreaking / PartyListEvaluator / '
+       'VotingSystem (evaluate / calculate methods)': 'correspondence (extracted run_impl with the '
+       'leaf evaluators, converters, quota functions and calculator objects answered by the real objects through an oracle table)',
        'inspect.signature of every evaluate() / core.accepts_seats / accepts_prev_gains': 'translator (tools/py2v.py part 5: evaluate parameter lists and the accepts_seats '
        'attribute read from the source) + Props/GenTie_Signatures_C14.v (Gen signatures = Wrappers.sig_of / attr_of for every wrapper tree); and compared with '
        'Wrappers.sig_of / acc_seats / acc_prev on every node of every generated tree',
        'Python argument binding': 'Wrappers.bind compared with CPython on generated signatures and calls',
-       'TieBreaking._replace_sel_ties / _replace_distr_ties, convert.VoteTotals / SubsettedVotes, util.add_dict_to_dict': 'correspondence (direct unit streams)'}
-RULE = ('corpus (zero-seat constituencies, omitted seat counts, seat dictionary vs fixed apportioner, PreApportioned around generic wrappers); '
+       'TieBreaking._replace_sel_ties / _replace_distr_ties, convert.VoteTotals / SubsettedVotes (code-shaped AND declarative definitions), util.add_dict_to_dict': 'correspondence (direct unit streams)'}
+RULE = ('corpus (zero-seat constituencies, omitted seat counts, seat dictionary vs fixed apportioner, PreApportioned around generic wrappers, unused votes with previous gains / '
+        'by constituency, adjusted seat counts with caps, seatless parts, preselector); '
         'random well-typed wrapper trees of depth <= 4 over real votelib leaves (Plurality, '
-        'HighestAverages d\'Hondt/Sainte-Lague, LargestRemainder hare, Absolute/Relative/Alternative/PreviousGain thresholds, VotesPerSeat, '
-        'ListOrderTieBreaker) and converters (VoteTotals, MergedDistributions, SelectionToDistribution, identity, halving); simple and '
+        'HighestAverages d\'Hondt/Sainte-Lague, LargestRemainder hare, QuotaDistributor, Absolute/Relative/Alternative/PreviousGain thresholds, VotesPerSeat, '
+        'ListOrderTieBreaker), converters (VoteTotals, MergedDistributions, SelectionToDistribution, identity, halving), quota functions (hare, droop, '
+        'hagenbach_bischoff, imperiali, constant) and seat count calculators (AllowOverhang, LevelOverhang, LevelOverhangByConstituency); simple and '
         'per-constituency votes with constructed ties; seats as int / per-constituency dict / fixed int or dict apportioner / distributor '
-        'apportioner / omitted, every seat specification (incl. a dictionary from the caller, an enclosing PreApportioned or FixedSeatCount) '
-        'against every apportioner kind; generic-signature wrappers (PreConverted, PostConverted, TieBreaking, FixedSeatCount; VotingSystem in '
-        'stream unembedded) at the constituency level, also directly below PreApportioned / RemovedApportionment / MultistageDistributor; '
+        'apportioner (seated or seatless) / omitted, every seat specification (incl. a dictionary from the caller, an enclosing PreApportioned or FixedSeatCount) '
+        'against every apportioner kind; generic-signature wrappers (PreConverted, PostConverted, TieBreaking, FixedSeatCount, VotingSystem) '
+        'at the constituency level, also directly below PreApportioned / RemovedApportionment / MultistageDistributor; UnusedVotesDistributor at depth 1 and 2 '
+        '(Fraction votes in later stages), AdjustedSeatCount as a later stage and at the root; '
         'prev_gains and max_seats (flat and nested), seat count positionally or by keyword. Each case: implementation '
         'vs extracted run_impl (oracle leaves), implementation vs the by-hand composition on the same leaf objects, run_spec vs by-hand. '
         'non-trivial = tree depth >= 2 or prev_gains/max_seats supplied or a tie / zero-seat constituency occurred; distinct by case hash')
-PARTIAL = ['UnusedVotesDistributor, VotingSystem, ByConstituency preselector, non-simple vote subsetters: not embedded in Model/Wrappers.v '
+PARTIAL = ['ByConstituency with a preselector AND a distributor apportioner, non-simple vote subsetters: not embedded '
            '(implementation vs by-hand composition only)',
-           'shared parts (VoteTotals, SubsettedVotes, add_dict_to_dict, tie replacement) are modelled once and used by both semantics: '
-           'C14_compose is about argument forwarding and dispatch, the parts are tied by correspondence',
-           'C14_compose is proved for faithful trees (inspect-based dispatch = what the inspected part takes); the excluded class is a known finding']
+           'util.add_dict_to_dict at one level, tie replacement, the unused-vote arithmetic and the levelling loop are one definition used by both semantics '
+           '(tied by correspondence; the tie replacement characterised by separate theorems); VoteTotals / SubsettedVotes have a declarative spec-side '
+           'definition proved equal to the code-shaped one on every value',
+           'C14_compose is proved for faithful trees (inspect-based dispatch = what the inspected part takes); the excluded class is a known finding',
+           'a seat NUMBER reaching a seatless apportioner / a seat count reaching a seatless overall evaluator is excluded by seat_fits (refuted otherwise)']
 TRUSTED = ['harness/props/c14_trees.py: encoding of Python values, the by-hand composition used as the declarative clause']
 EXTRA_PROOF_FILES = []
 # the hand-written signature table of Model/Wrappers.v (sig_of / lsig / attr_of) IS the one regenerated from the source
@@ -58,14 +64,16 @@ def call_sx(case):
 def impl_result(case):
     built = T.Built(case['tree'])
     pos, kw = split_call(case)
-    r = common.call_impl(lambda: built.obj.evaluate(copy.deepcopy(case['votes']), *copy.deepcopy(pos), **copy.deepcopy(kw)), 10)
+    limit = 2 if has_kind(case['tree'], ('adj',)) else 10       # a levelling loop that does not end is cut early
+    r = common.call_impl(lambda: built.obj.evaluate(copy.deepcopy(case['votes']), *copy.deepcopy(pos), **copy.deepcopy(kw)), limit)
     return r
 
 
 def hand_result(case):
     built = T.Built(case['tree'])
     h = T.Hand(built)
-    return common.call_impl(lambda: h.run(case['tree'], copy.deepcopy(case['votes']), **copy.deepcopy(case['args'])), 10)
+    limit = 2 if has_kind(case['tree'], ('adj',)) else 10
+    return common.call_impl(lambda: h.run(case['tree'], copy.deepcopy(case['votes']), **copy.deepcopy(case['args'])), limit)
 
 
 def answer_miss(built, m):
@@ -76,6 +84,15 @@ def answer_miss(built, m):
     if hasattr(obj, 'convert') and not hasattr(obj, 'evaluate'):
         r = common.call_impl(lambda: obj.convert(votes), 10)
         osx = '()'
+    elif hasattr(obj, 'calculate'):        # a seat count calculator: calculate(votes, n_seats, prev_gains=, max_seats=)
+        kw = {T.KW[i]: T.dec(o[0]) for i, o in enumerate(opts) if o}
+        n = kw.pop('n_seats')
+        r = common.call_impl(lambda: obj.calculate(votes, n, **kw), 2)
+        osx = raw(opts)
+    elif not hasattr(obj, 'evaluate'):     # a quota function: (total votes, seats) -> number
+        n = T.dec(opts[0][0])
+        r = common.call_impl(lambda: obj(votes, n), 10)
+        osx = raw(opts)
     else:
         kw = {T.KW[i]: T.dec(o[0]) for i, o in enumerate(opts) if o}
         r = common.call_impl(lambda: obj.evaluate(votes, **kw), 10)
@@ -109,7 +126,7 @@ def run_models(cases):
             trees.append(None); votes.append(None); calls.append(None); sas.append(None)
     pending = [(i, k) for i in range(n) if i not in dead for k in (0, 1)]
     rounds = 0
-    while pending and rounds < 400:
+    while pending and rounds < 700:
         rounds += 1
         lines = []
         for i, k in pending:
@@ -153,8 +170,10 @@ def wire_of_model(w):
 
 def depth_of(t):
     subs = [x for x in t[1:] if isinstance(x, list) and x and isinstance(x[0], str) and x[0] != 'ev']
-    if t[0] == 'multi':
+    if t[0] in ('multi', 'unused'):
         subs = t[1]
+    if t[0] == 'adj':
+        subs = [t[2]] + ([t[1][1]] if t[1][0] in ('allow', 'level', 'levelc') else []) + ([t[1][2]] if t[1][0] == 'levelc' and t[1][2] is not None else [])
     if t[0] in ('bycons', 'preapp') and isinstance(t[2], list):
         subs = subs + [t[2][1]]
     return 1 + max([depth_of(s) for s in subs] or [0])
@@ -172,7 +191,7 @@ def shape_tags(case):
             if seats == 'dict' and isinstance(t[2], (int, dict)):
                 tags.add('seat-dict-meets-fixed-apportioner')
             if k == 'preapp':
-                if t[1][0] in ('pre', 'post', 'tiebr', 'fixed'):
+                if t[1][0] in ('pre', 'post', 'tiebr', 'fixed', 'vsys'):
                     tags.add('preapp-around-generic' + ('+gains' if gains else ''))
                 walk(t[1], 'dict')
             return
@@ -187,10 +206,18 @@ def shape_tags(case):
                 walk(st, seats)
         elif k == 'pre':
             walk(t[3], seats)
-        elif k in ('post', 'tiebr'):
+        elif k in ('post', 'tiebr', 'vsys'):
             walk(t[1], seats)
     walk(case['tree'], 'dict' if isinstance(case['args'].get('n_seats'), dict) else 'other')
     return tags
+
+
+def has_kind(t, kinds):
+    if not isinstance(t, list) or not t:
+        return False
+    if isinstance(t[0], str) and t[0] in kinds:
+        return True
+    return any(has_kind(x, kinds) for x in t[1:] if isinstance(x, list)) if isinstance(t[0], str) else any(has_kind(x, kinds) for x in t)
 
 
 def has_tie(v):
@@ -204,13 +231,18 @@ def has_tie(v):
     return False
 
 
-def known_class_of(case, flags, ri, rh, rm):
+def known_class_of(case, flags, ri, rh, rm, wi=None):
     """decidable classes of the recorded findings (flags from the model: wt, faithful, fits)"""
     if rh[0] == 'err' and 'AllZero' in str(rh[2]) and ri[0] == 'err' and ri[1] == common.E['STOP'] and rm == ('err', common.E['STOP']):
         return 'C14-byconstituency-all-zero'
-    if not flags[1] and wire_of_result(ri) == rm:
+    if not flags[1] and (wi if wi is not None else wire_of_result(ri)) == rm:
         return 'C14-generic-wrapper-hides-prev-gains'
     return None
+
+
+def noend(w):
+    """a levelling loop that does not end: the implementation is cut by the alarm, the model runs out of fuel - the same answer"""
+    return ('err', common.E['FUEL']) if w[0] == 'err' and w[1] in (common.E['TIMEOUT'], common.E['FUEL'], common.E['OTHER']) else w
 
 
 def explore_trees(ctx, stream, cases):
@@ -228,15 +260,22 @@ def explore_trees(ctx, stream, cases):
             continue
         mi, ms, info, built, ncalls = r
         iv = common.parse_sx(info)
+        if iv[0] == 0 and (mi is None or ms is None) and has_kind(c['tree'], ('adj',)):
+            ctx.dist['levelling-loop-too-long'] += 1      # more leaf calls than the oracle protocol answers: case dropped
+            continue
         if iv[0] != 0 or mi is None or ms is None:
             ctx.broken('harness', 'model rejected its input (%s): %s / %s / %s' % (stream, info[:100], mi, json.dumps(c)[:300]))
             continue
-        wt, faithful, fits, nodes = iv[1]
+        wt, faithful, fits, nodes, seated = iv[1]
+        ctx.dist['seated=%d' % seated] += 1
         flags = (wt, faithful, fits)
         ctx.dist['wt=%d faithful=%d fits=%d' % flags] += 1
         ctx.dist['depth:%d' % depth_of(c['tree'])] += 1
         for tag in shape_tags(c):
             ctx.dist['shape:' + tag] += 1
+        for kind in ('unused', 'adj', 'vsys', 'byconsp'):
+            if has_kind(c['tree'], (kind,)):
+                ctx.dist['has:' + kind] += 1
         ctx.dist['leaf-calls:%s' % ('0' if ncalls == 0 else '1-3' if ncalls < 4 else '4-9' if ncalls < 10 else '10+')] += 1
         # (0) signature / inspect tie on every node
         import votelib.evaluate.core as core
@@ -257,6 +296,11 @@ def explore_trees(ctx, stream, cases):
             wh = wire_of_result(rh)
         except Exception:   # noqa
             wh = ('err', -1)
+        if has_kind(c['tree'], ('adj',)):
+            wi, wm, wsm, wh = noend(wi), noend(wm), noend(wsm), noend(wh)
+            if wm == ('err', common.E['FUEL']) and wi[0] == 'ok':
+                ctx.dist['levelling-loop-too-long'] += 1      # the loop ends, but not within the model's fuel: case dropped
+                continue
         if ri[0] == 'ok':
             try:
                 T.enc(ri[1])
@@ -291,7 +335,7 @@ def explore_trees(ctx, stream, cases):
             ctx.dist['spec-model-vs-hand-differs'] += 1
             why = why or 'run_spec %s differs from the by-hand composition %s' % (short(wsm), short(wh))
         if why:
-            kid = known_class_of(c, flags, ri, rh, wm)
+            kid = known_class_of(c, flags, ri, rh, wm, wi)
             if kid and any(k['id'] == kid for k in ctx.known):
                 ctx.known_hits[kid] += 1
             else:
@@ -329,6 +373,55 @@ class Gen:
     def conv_simple(self):
         return self.pick(['ident', 'halve'])
 
+    # ---- UnusedVotesDistributor / AdjustedSeatCount
+    def quota(self):
+        return [self.id(), self.pick(['hare', 'droop', 'droop', 'hagenbach_bischoff', 'imperiali', 'imperiali', self.rng.randint(3, 30)])]
+
+    def stage_leaf(self):
+        return self.pick([self.leaf('qd', [self.pick(['droop', 'imperiali', 'hare'])]), self.leaf('qd', ['droop']), self.dist_leaf()])
+
+    def ustage(self, d):
+        r = self.rng.random()
+        if d <= 0 or r < 0.6:
+            return self.stage_leaf()
+        if r < 0.7:
+            return ['cond', self.elim(0), self.stage_leaf(), 1]
+        if r < 0.8:
+            return ['tiebr', self.stage_leaf(), self.leaf('plurality')]
+        if r < 0.9:
+            return self.pick([['pre', self.id(), self.conv_simple(), self.stage_leaf()], ['vsys', self.stage_leaf()]])
+        return self.dist(d - 1, True)
+
+    def nquotas(self, n):
+        r = self.rng.random()
+        return n - 1 if r < 0.85 else (n if r < 0.93 else max(0, n - 2))      # zip() truncates
+
+    def unused(self, d):
+        n = self.rng.randint(1, 3)
+        return ['unused', [self.ustage(d - 1) for _ in range(n)], [self.quota() for _ in range(self.nquotas(n))], 1]
+
+    def pe(self, d):
+        """the proportional evaluator inside a seat count calculator: called with (votes, n, max_seats=...)"""
+        r = self.rng.random()
+        if d <= 0 or r < 0.55:
+            return self.dist_leaf()
+        if r < 0.7:
+            return ['pre', self.id(), 'ident', self.dist_leaf()]
+        if r < 0.8:
+            return ['cond', self.elim(0), self.dist_leaf(), 1]
+        if r < 0.9:
+            return ['tiebr', self.dist_leaf(), self.leaf('plurality')]
+        return ['vsys', self.dist_leaf()]
+
+    def adj(self, d):
+        spec = ['ha', [self.pick(['d_hondt', 'sainte_lague'])]]
+        k = self.pick(['calc-allow', 'calc-level', 'allow', 'allow', 'level', 'level'])
+        if k.startswith('calc'):
+            calc = ['calc', self.id(), k[5:], [spec]]
+        else:
+            calc = [k, self.pe(d - 1)]
+        return ['adj', calc, self.dist(d - 1, True) if self.rng.random() < 0.4 else self.dist_leaf()]
+
     def elim(self, d):
         r = self.rng.random()
         if d <= 0 or r < 0.55:
@@ -347,6 +440,8 @@ class Gen:
             return ['tiebr', self.sel(d - 1), self.pick([self.leaf('plurality'), ['pre', self.id(), 'halve', self.leaf('plurality')]])]
         if r < 0.8:
             return ['cond', self.elim(d - 1), self.sel(d - 1), 1]
+        if r < 0.86:
+            return ['vsys', self.sel(d - 1)]
         return ['pre', self.id(), self.conv_simple(), self.sel(d - 1)]
 
     def dist(self, d, strict=True):
@@ -360,10 +455,16 @@ class Gen:
             return ['cond', self.elim(d - 1), self.leaf('vps', [self.rng.randint(5, 60)]), 1]
         if r < 0.65:
             return ['cond', self.elim(d - 1), self.dist(d - 1, strict), 1]
-        if r < 0.75:
+        if r < 0.72:
             return ['pre', self.id(), self.conv_simple(), self.dist(d - 1, strict)]
-        if r < 0.9 or strict:
-            return ['multi', [self.dist(d - 1, True) for _ in range(self.rng.randint(1, 3))], 1]
+        if r < 0.75:
+            return ['vsys', self.dist(d - 1, strict)]
+        if r < 0.83:
+            return self.unused(d)
+        if r < 0.92 or strict:
+            # later stages are always handed the gains so far: an AdjustedSeatCount (prev_gains required) may stand there
+            return ['multi', [self.dist(d - 1, True)] + [self.adj(d - 1) if self.rng.random() < 0.25 else self.dist(d - 1, True)
+                                                         for _ in range(self.rng.randint(0, 2))], 1]
         return ['post', self.sel(d - 1), self.id(), 'sel2dist']
 
     def aspec(self, kinds, consts):
@@ -388,11 +489,18 @@ class Gen:
         if d <= 1 or r < 0.36:
             kinds = {'int': ['none', 'none', 'int', 'dict', 'ev', 'ev'], 'dict': ['none', 'none', 'ev', 'int', 'dict', 'dict'],
                      'none': ['int', 'dict', 'vps']}[want]
+            if self.rng.random() < 0.12:       # with a preselector on the national totals (seated or seatless)
+                static = {'int': ['none', 'int', 'dict'], 'dict': ['none', 'int', 'dict'], 'none': ['int', 'dict']}[want]
+                pre = self.pick([self.leaf('plurality'), self.elim(0), self.elim(1), ['tiebr', self.leaf('plurality'), self.leaf('plurality')]])
+                return ['byconsp', inner(), self.aspec(static, consts), pre]
             return ['bycons', inner(), self.aspec(kinds, consts)]
         if r < 0.48:
             return ['cond', self.elim(d - 1), self.cdist(d - 1, want, consts, lists_ok, flat), 2]
-        if r < 0.60 and want != 'none':
+        if r < 0.55 and want != 'none':
             return ['multi', [self.cdist(d - 1, want, consts, False) for _ in range(self.rng.randint(1, 2))], 2]
+        if r < 0.60 and want != 'none':
+            n = self.rng.randint(1, 3)
+            return ['unused', [self.cdist(d - 1, want, consts, False) for _ in range(n)], [self.quota() for _ in range(self.nquotas(n))], 2]
         if r < 0.68 and want == 'int':
             return ['byparty', self.dist(d - 1, True), self.pick([None, self.dist_leaf(), self.dist(d - 1, True)])]
         if r < 0.68 and want == 'none':
@@ -412,9 +520,11 @@ class Gen:
     def cgeneric(self, d, want, consts, lists_ok=True, flat=False):
         """a wrapper with a generic (votes, *args, **kwargs) signature at the constituency level: whatever the enclosing wrapper is given
         (seat dictionary, nested prev_gains / max_seats) must pass through it unchanged"""
-        k = self.pick(['pre', 'pre', 'post', 'tiebr'] + (['merged'] if flat else []))
+        k = self.pick(['pre', 'pre', 'post', 'tiebr', 'vsys'] + (['merged'] if flat else []))
         if k == 'pre':
             return ['pre', self.id(), self.conv_simple(), self.cdist(d - 1, want, consts, lists_ok, flat)]
+        if k == 'vsys':
+            return ['vsys', self.cdist(d - 1, want, consts, lists_ok, flat)]
         if k == 'post':
             return ['post', self.cdist(d - 1, want, consts, lists_ok, flat), self.id(), 'ident']
         if k == 'tiebr':
@@ -442,10 +552,24 @@ class Gen:
         parties = T.PARTIES[:rng.randint(2, 5)]
         consts = T.CONSTS[:rng.randint(1, 4)]
         tied = rng.random() < 0.35
-        root = self.pick(['dist', 'dist', 'sel', 'cdist', 'cdist', 'cdist', 'fixed', 'plist', 'merge', 'totals'])
+        root = self.pick(['dist', 'dist', 'sel', 'cdist', 'cdist', 'cdist', 'fixed', 'plist', 'merge', 'totals', 'adj'])
         args = {}
         style = self.pick(['pos', 'kw'])
-        if root in ('dist', 'sel'):
+        if root == 'adj':
+            tree = self.adj(d)
+            if rng.random() < 0.3:
+                tree = self.pick([['vsys', tree], ['pre', self.id(), 'ident', tree], ['fixed', tree, rng.randint(2, 9)]])
+            votes = {p: rng.randint(20, 300) for p in parties}
+            if tree[0] != 'fixed':
+                args['n_seats'] = rng.randint(2, 12)
+            else:
+                style = 'kw'
+            top = sorted(parties, key=lambda p: -votes[p])[:2]
+            if rng.random() < 0.93:
+                args['prev_gains'] = {p: rng.randint(0, 3) for p in top if rng.random() < 0.8}
+            if rng.random() < 0.2:
+                args['max_seats'] = {p: rng.randint(2, 8) for p in parties if rng.random() < 0.5}
+        elif root in ('dist', 'sel'):
             tree = self.dist(d, rng.random() < 0.8) if root == 'dist' else self.sel(d)
             votes = self.simple_votes(parties, tied)
             if tree[0] == 'multi' and rng.random() < 0.3:
@@ -528,7 +652,7 @@ def gen_boundary(rng, count):
         g.nid = 0
         parties = T.PARTIES[:rng.randint(2, 4)]
         consts = T.CONSTS[:rng.randint(2, 3)]
-        k = i % 10
+        k = i % 16
         if k == 0:    # zero-seat constituencies through every kind of apportioner
             a = rng.choice([{c: rng.choice([0, 0, 1, 2]) for c in consts}, ['ev', g.dist_leaf()], 0])
             tree = ['bycons', rng.choice([g.dist_leaf(), g.leaf('plurality')]), a]
@@ -595,6 +719,103 @@ def gen_boundary(rng, count):
                 args['prev_gains'] = {c: g.gains(parties, 2) for c in consts if rng.random() < 0.8}
             yield dict(unit='tree', tree=tree, votes=g.nested_votes(consts, parties), args=args,
                        style='kw' if how == 'fixedcount' else rng.choice(['pos', 'kw']))
+        elif k == 10:  # unused-votes distribution with previous gains: the seats left for the next stage come from the stage result
+            n = rng.randint(2, 3)
+            stages = [g.leaf('qd', [rng.choice(['droop', 'imperiali', 'hare'])])] + [rng.choice([g.stage_leaf(), g.ustage(1)]) for _ in range(n - 1)]
+            tree = ['unused', stages, [g.quota() for _ in range(n - 1)], 1]
+            if rng.random() < 0.3:
+                tree = rng.choice([['pre', g.id(), 'ident', tree], ['cond', g.elim(0), tree, 1], ['vsys', tree], ['tiebr', tree, g.leaf('plurality')]])
+            votes = {p: rng.randint(30, 400) for p in parties}
+            args = {'n_seats': rng.randint(3, 14)}
+            if rng.random() < 0.85:
+                args['prev_gains'] = {p: rng.randint(1, 4) for p in parties if rng.random() < 0.7}
+            yield dict(unit='tree', tree=tree, votes=votes, args=args, style=rng.choice(['pos', 'kw']))
+        elif k == 11:  # unused votes by constituency (depth 2) with a seat dictionary: constituency stage, then the rest by party
+            first = ['bycons', g.leaf('qd', [rng.choice(['imperiali', 'droop'])]), None]
+            second = rng.choice([['remapp', ['byparty', g.dist_leaf(), rng.choice([None, g.dist_leaf()])]], ['bycons', g.dist_leaf(), None]])
+            un = ['unused', [first, second], [[g.id(), rng.choice(['imperiali', 'imperiali', 'droop', 'hagenbach_bischoff'])]], 2]
+            how = rng.choice(['dict', 'preapp', 'preapp-cond', 'int'])
+            votes = {c: {p: rng.randint(20, 300) for p in parties} for c in consts}
+            args = {}
+            if how == 'dict':
+                tree, args['n_seats'] = un, {c: rng.randint(1, 6) for c in consts}
+            elif how == 'int':
+                tree, args['n_seats'] = un, rng.randint(1, 5)
+            else:
+                body = un if how == 'preapp' else ['cond', g.leaf('rel_thr', [rng.randint(1, 4), 20]), un, 2]
+                tree, args['n_seats'] = ['preapp', body, ['ev', g.leaf('lr', ['hare'])]], rng.randint(4, 16)
+            if rng.random() < 0.4:
+                args['prev_gains'] = {c: g.gains(parties, 2) for c in consts if rng.random() < 0.8}
+            yield dict(unit='tree', tree=tree, votes=votes, args=args, style=rng.choice(['pos', 'kw']))
+        elif k == 12:  # a second stage with an adjusted seat count: overhang kept (AllowOverhang) or levelled (LevelOverhang)
+            spec = ['ha', [rng.choice(['d_hondt', 'sainte_lague'])]]
+            calc = rng.choice([['calc', g.id(), 'allow', [spec]], ['calc', g.id(), 'level', [spec]], ['allow', g.pe(1)], ['level', g.pe(1)]])
+            second = ['adj', calc, rng.choice([g.dist_leaf(), ['tiebr', g.dist_leaf(), g.leaf('plurality')]])]
+            first = rng.choice([g.dist_leaf(), ['post', g.leaf('plurality'), g.id(), 'sel2dist']])
+            tree = ['multi', [first, second], 1]
+            v1 = {p: rng.randint(20, 300) for p in parties}
+            v2 = {p: rng.randint(20, 300) for p in parties}
+            n = rng.randint(2, 9)
+            args = {'n_seats': n}
+            if rng.random() < 0.35:     # seat caps reach the calculator and the evaluator alike
+                args['max_seats'] = {p: rng.randint(1, 4) for p in parties if rng.random() < 0.6}
+            yield dict(unit='tree', tree=tree, votes=[v1, v2] if rng.random() < 0.75 else v1, args=args, style=rng.choice(['pos', 'kw']))
+        elif k == 13:  # the adjusted seat count by constituency: the calculator is a part (LevelOverhangByConstituency), ByParty distributes
+            spec = ['ha', [rng.choice(['d_hondt', 'sainte_lague'])]]
+            ap = {c: rng.randint(1, 4) for c in consts}
+            calc = ['calc', g.id(), 'levelbyc', [spec, ap, ['ha', [rng.choice(['d_hondt', 'sainte_lague'])]]]]     # with the default overall evaluator a fixed apportionment never grows
+            if rng.random() < 0.6:      # the same calculator over TREES (embedded in the model): constituency evaluator, overall evaluator or None
+                ce = rng.choice([lambda: ['bycons', g.dist_leaf(), dict(ap)], lambda: ['bycons', g.dist_leaf(), ['ev', g.dist_leaf()]],
+                                 lambda: ['pre', g.id(), 'ident', ['bycons', g.dist_leaf(), ['ev', g.dist_leaf()]]]])()
+                oe = rng.choice([g.dist_leaf(), g.dist_leaf(), ['tiebr', g.dist_leaf(), g.leaf('plurality')], None])
+                if oe is None and isinstance(ce[2], dict):
+                    oe = g.dist_leaf()
+                calc = ['levelc', ce, oe]
+            second = ['adj', calc, ['byparty', g.dist_leaf(), g.dist_leaf()]]
+            first = ['bycons', g.dist_leaf(), rng.randint(1, 2)]
+            tree = ['multi', [first, second], 2]
+            votes = {c: {p: rng.randint(30, 300) for p in parties} for c in consts}
+            yield dict(unit='tree', tree=tree, votes=votes, args={'n_seats': sum(ap.values()) + rng.randint(0, 3)}, style=rng.choice(['pos', 'kw']))
+        elif k == 14:  # tie-breaking inside per-constituency evaluation inside a post-conversion, on tied votes
+            tb = ['tiebr', g.leaf('plurality'), rng.choice([g.leaf('plurality'), ['pre', g.id(), 'halve', g.leaf('plurality')]])]
+            if rng.random() < 0.5:
+                tb = ['tiebr', tb, g.leaf('plurality')]
+            if rng.random() < 0.3:
+                tb = ['cond', g.leaf('abs_thr', [rng.randint(0, 3)]), tb, 1]
+            inner = ['bycons', tb, rng.choice([None, rng.randint(1, 3), {c: rng.randint(0, 3) for c in consts}])]
+            tree = ['post', inner, g.id(), 'ident']
+            if rng.random() < 0.4:
+                tree = rng.choice([['vsys', tree], ['pre', g.id(), 'halve', tree], ['post', tree, g.id(), 'ident']])
+            votes = {c: {p: rng.choice([3, 3, 4, 6, 6]) for p in parties} for c in consts}
+            yield dict(unit='tree', tree=tree, votes=votes, args={'n_seats': rng.randint(1, 3)}, style=rng.choice(['pos', 'kw']))
+        elif k == 15:  # seatless apportioner / seatless overall evaluator: seat count omitted, None, a dictionary, or (ill-typed) a number
+            vps = lambda lo, hi: g.leaf('vps', [rng.randint(lo, hi)])   # noqa
+            shape = rng.choice(['bycons', 'bycons', 'preapp', 'byparty', 'byparty', 'cond-bycons', 'multi-byparty', 'presel', 'presel'])
+            votes = g.nested_votes(consts, parties)
+            if shape == 'presel':    # a preselector that takes a seat count (Plurality: default 1) / does not; count omitted, None, int, dict
+                pre = rng.choice([g.leaf('plurality'), g.leaf('plurality'), g.elim(0)])
+                tree = ['byconsp', rng.choice([g.dist_leaf(), g.leaf('plurality')]), rng.choice([rng.randint(1, 3), {c: rng.randint(0, 3) for c in consts}]), pre]
+                if rng.random() < 0.3:
+                    tree = rng.choice([['cond', g.elim(0), tree, 2], ['pre', g.id(), 'ident', tree], ['multi', [tree], 2]])
+                what = 'int' if tree[0] == 'multi' else rng.choice(['omit', 'omit', 'none', 'int', 'dict'])
+                args = {} if what == 'omit' else {'n_seats': None if what == 'none' else ({c: rng.randint(0, 4) for c in consts} if what == 'dict' else rng.randint(1, 3))}
+                yield dict(unit='tree', tree=tree, votes=votes, args=args, style=rng.choice(['pos', 'kw']))
+                continue
+            if shape in ('bycons', 'cond-bycons'):
+                tree = ['bycons', rng.choice([g.dist_leaf(), g.leaf('plurality')]), ['ev', vps(10, 150)]]
+                if shape == 'cond-bycons':
+                    tree = ['cond', g.elim(0), tree, 2]
+            elif shape == 'preapp':
+                tree = ['preapp', ['bycons', g.dist_leaf(), None], ['ev', vps(10, 150)]]
+            elif shape == 'byparty':
+                tree = ['byparty', vps(20, 120), g.dist_leaf()]
+            else:
+                tree = ['pre', g.id(), 'ident', ['byparty', vps(20, 120), g.dist_leaf()]]
+            what = rng.choice(['omit', 'omit', 'none', 'dict', 'int'] if 'byparty' not in shape else ['omit', 'omit', 'none', 'int'])
+            args = {} if what == 'omit' else {'n_seats': None if what == 'none' else ({c: rng.randint(0, 4) for c in consts} if what == 'dict' else rng.randint(1, 6))}
+            if rng.random() < 0.3:
+                args['prev_gains'] = {c: g.gains(parties, 2) for c in consts if rng.random() < 0.8}
+            yield dict(unit='tree', tree=tree, votes=votes, args=args, style=rng.choice(['pos', 'kw']))
         else:         # PreApportioned DIRECTLY around a wrapper with a generic signature, previous gains / seat caps supplied:
             # both must reach the per-constituency evaluation below the generic wrapper (singly and stacked generic wrappers)
             def generic(child, top=True):
@@ -765,31 +986,44 @@ def parts_cases(rng, count):
     for i in range(count):
         parties = T.PARTIES[:rng.randint(1, 5)]
         consts = T.CONSTS[:rng.randint(0, 4)]
-        k = i % 3
-        if k == 0:
-            yield dict(unit='parts', kind='totals', votes=g.nested_votes(consts, parties))
-        elif k == 1:
+        k = i % 5
+        # a Fraction count is written 'n/d' in the case (JSON); counts of that kind arise inside UnusedVotesDistributor
+        frac = (lambda v: {p: ('%d/%d' % (x, rng.randint(2, 5)) if rng.random() < 0.5 else x) for p, x in v.items()}) if rng.random() < 0.12 else (lambda v: v)   # noqa
+        if k in (0, 3):      # 3: the declarative definition of the spec side (totals_s)
+            yield dict(unit='parts', kind='totals' if k == 0 else 'totals_s', votes={c: frac(v) for c, v in g.nested_votes(consts, parties).items()})
+        elif k in (1, 4):    # 4: subset_s
             sub = rng.sample(T.PARTIES[:6], rng.randint(0, 4))
-            yield dict(unit='parts', kind='subset', votes=g.simple_votes(parties), subset=sub, as_tie=rng.random() < 0.4 and len(sub) > 0)
+            yield dict(unit='parts', kind='subset' if k == 1 else 'subset_s', votes=frac(g.simple_votes(parties)), subset=sub,
+                       as_tie=rng.random() < 0.4 and len(sub) > 0)
         else:
             yield dict(unit='parts', kind='add', a=g.gains(parties, 5), b=g.gains(T.PARTIES[:5], 5))
 
 
+def unq(v):
+    if isinstance(v, str) and '/' in v:
+        return Fraction(v)
+    if isinstance(v, dict):
+        return {k: unq(x) for k, x in v.items()}
+    return v
+
+
 def parts_model_line(c):
     import votelib.evaluate.core as core
-    if c['kind'] == 'totals':
-        return '%d (0 %s)' % (B + 5, T.enc(c['votes']))
-    if c['kind'] == 'subset':
+    c = dict(c, votes=unq(c.get('votes')))
+    if c['kind'] in ('totals', 'totals_s'):
+        return '%d (%d %s)' % (B + 5, 0 if c['kind'] == 'totals' else 3, T.enc(c['votes']))
+    if c['kind'] in ('subset', 'subset_s'):
         s = core.Tie(c['subset']) if c['as_tie'] else c['subset']
-        return '%d (1 %s %s)' % (B + 5, T.enc(c['votes']), T.enc(s))
+        return '%d (%d %s %s)' % (B + 5, 1 if c['kind'] == 'subset' else 4, T.enc(c['votes']), T.enc(s))
     return '%d (2 %s %s)' % (B + 5, T.enc(c['a']), T.enc(c['b']))
 
 
 def parts_impl(c):
     import votelib.convert as conv, votelib.util, votelib.evaluate.core as core
-    if c['kind'] == 'totals':
+    c = dict(c, votes=unq(c.get('votes')))
+    if c['kind'] in ('totals', 'totals_s'):
         return '(0 %s)' % T.enc(conv.VoteTotals().convert(c['votes']))
-    if c['kind'] == 'subset':
+    if c['kind'] in ('subset', 'subset_s'):
         s = core.Tie(c['subset']) if c['as_tie'] else c['subset']
         return '(0 %s)' % T.enc(conv.SubsettedVotes(core.DEFAULT_SUBSETTER).convert(c['votes'], s))
     a = dict(c['a'])
@@ -962,7 +1196,7 @@ def explore(ctx, widen=1):
     by_unit(ctx, 'bind', [c for c in bind_cases(ctx.rng, ctx.n(600, 6000) * widen) if bind_valid(c)])
     by_unit(ctx, 'tie-replace', tie_cases(ctx.rng, ctx.n(500, 5000) * widen))
     by_unit(ctx, 'parts', parts_cases(ctx.rng, ctx.n(300, 3000) * widen))
-    by_unit(ctx, 'boundary', gen_boundary(ctx.rng, ctx.n(1200, 8000) * widen))
+    by_unit(ctx, 'boundary', gen_boundary(ctx.rng, ctx.n(1920, 12800) * widen))
     by_unit(ctx, 'random-trees', gen_random(ctx.rng, ctx.n(3000, 24000) * widen))
     unembedded_checks(ctx, ctx.rng, ctx.n(900, 6000) * widen)
 
